@@ -103,6 +103,9 @@ def job_plateaus(j, seed):
     atol_v = C.sym_var('atol', sign='+')
     atol = sc.scalar(atol_v, unit='Hz/s')
     C.CTX.fork_timeout_ms = 3000
+    # every obligation of this job sits under a path condition whose feasibility was decided fork by fork; the separate
+    # premise-only query of the vacuity guard sends z3 (nla, integer coordinates) into a computation it cannot be interrupted in
+    C.CTX.vacuity_guard = False
 
     def run():
         NEXT.clear()
